@@ -22,6 +22,11 @@ KINDS = ['jf32', 'ji32', 'nf32', 'nf64', 'ni32']
 WEIGHT_POOL = [0, 1, 2, 0.5, 3, 0.25, 5, 10, 100]
 FORMS = ['list', 'gen', 'iter', 'tuple', 'map']
 WKINDS = ['float', 'int', 'np32', 'jnp']
+# weight objects for tree_mean / mean_aggregator: python and numpy scalars (narrow integer types whose TOTAL leaves their
+# range), 0-d and (1,)-shaped numpy arrays (mutable: the caller's weight objects are inputs too), jax scalars
+WKINDS_MEAN = ['float', 'int', 'np32', 'jnp', 'float', 'int', 'np64', 'npi64', 'npu8', 'npi16', 'nd0', 'nd0', 'nd1', 'nd1']
+INT_WKINDS = ('int', 'npi64', 'npu8', 'npi16')
+NARROW_POOL = {'npu8': [200, 100, 100, 150, 255, 0, 1, 50], 'npi16': [30000, 2000, 1000, 20000, 0, 1, 32767]}
 CONTAINERS = ['dict', 'nested', 'tuple']
 # integer vectors with integer euclidean norm (so float32 sqrt and the rational model agree exactly)
 PYTHAG = [[3, 4], [1, 2, 2], [2, 3, 6], [1, 4, 8], [4, 4, 7], [2, 6, 9], [6, 6, 7], [1, 1, 1, 1],
@@ -126,7 +131,9 @@ class C07(core.Property):
           'scale; every clause judged relative to the magnitude of the case; clients of one call with different leaf '
           'dtypes int32/bfloat16/float16/float32; infinite and float32-overflowing clip bounds; one float64 probe per run: '
           'a JAX_ENABLE_X64 subprocess running tree_sum/tree_mean/mean_aggregator/clip on float64 leaves with weights that '
-          'are not float32-representable, judged at 1e-12 relative); non-trivial = every realistic wrong variant '
+          'are not float32-representable, judged at 1e-12 relative; weight objects of every kind - python/numpy scalars incl. '
+          'uint8/int16 whose total leaves their range, 0-d and (1,)-shaped numpy arrays, jax scalars - snapshotted like the '
+          'trees; aggregator calls with a placeholder id for all clients or repeated ids); non-trivial = every realistic wrong variant '
           '(unweighted mean, divide by count, no division, first tree only; for clip: identity, scale without '
           'min) differs from the right value by > 100x the comparison tolerance in some coordinate; '
           'distinct by case digest')
@@ -200,17 +207,27 @@ class C07(core.Property):
     if rng.random() < 0.1 and n >= 2:
       trees[1] = [list(l) for l in trees[0]]          # identical trees
     ws = self._rand_weights(rng, n)
-    wkind = rng.choice(WKINDS)
-    if wkind == 'int':
+    wkind = rng.choice(WKINDS if mixed else WKINDS_MEAN)
+    if wkind == 'nd1' and any(len(s_) == 0 for s_, _ in spec):
+      wkind = 'nd0'          # a (1,)-shaped weight would broadcast a scalar leaf to shape (1,)
+    if wkind in NARROW_POOL:
+      ws = [rng.choice(NARROW_POOL[wkind]) for _ in range(n)]
+      if n >= 2 and rng.random() < 0.7:
+        ws[0], ws[1] = NARROW_POOL[wkind][0], NARROW_POOL[wkind][1]     # the total leaves the range of the type
+    elif wkind in INT_WKINDS:
       ws = [int(w) if float(w).is_integer() else int(w * 4) for w in ws]
     perm = list(range(n))
     rng.shuffle(perm)
     has_int = any(k.endswith('i32') for _, k in spec)
     scale = 0 if (has_int or rng.random() < 0.6) else rng.choice(SCALES_TINY + [SCALE_BIG])
-    wscale = 0 if (wkind == 'int' or op == 'sum' or rng.random() < 0.75) else rng.choice([-10, 10])
+    wscale = 0 if (wkind in INT_WKINDS or op == 'sum' or rng.random() < 0.75) else rng.choice([-10, 10])
     case = {'op': op, 'spec': spec, 'trees': trees, 'weights': ws, 'wkind': wkind,
             'form': rng.choice(FORMS), 'perm': perm, 'container': rng.choice(CONTAINERS),
             'as_numpy': [rng.random() < 0.15 for _ in range(n)], 'scale': scale, 'wscale': wscale}
+    if op == 'agg' and n >= 2 and rng.random() < 0.45:
+      # client ids are documented as unused by the mean aggregator: a placeholder id for everybody, or repeated ids
+      # (sampling with replacement); every listed entry counts
+      case['ids'] = [0] * n if rng.random() < 0.5 else [rng.randrange(max(1, n - 1)) for _ in range(n)]
     if mixed:
       # clients of one call with different leaf dtypes (small integer values: exact in every dtype)
       kinds = [rng.choice(MIXED_KINDS) for _ in range(n)]
@@ -379,6 +396,8 @@ class C07(core.Property):
         c['as_numpy'] = [case['as_numpy'][i] for i in keep]
         if case.get('client_kinds'):
           c['client_kinds'] = [case['client_kinds'][i] for i in keep]
+        if case.get('ids'):
+          c['ids'] = [case['ids'][i] for i in keep]
         order = [i for i in case['perm'] if i != drop]
         c['perm'] = [keep.index(i) for i in order]
         yield c
@@ -390,13 +409,15 @@ class C07(core.Property):
         yield c
     for key, simple in (('form', 'list'), ('wkind', 'float'), ('mkind', 'float'), ('container', 'dict')):
       if key in case and case[key] != simple:
-        if key in ('wkind', 'mkind') and case[key] == 'int':
+        if key in ('wkind', 'mkind') and case[key] in INT_WKINDS:
           continue
         yield {**case, key: simple}
     if any(case['as_numpy']):
       yield {**case, 'as_numpy': [False] * n}
     if case.get('wscale', 0):
       yield {**case, 'wscale': 0}
+    if case.get('ids') and len(set(case['ids'])) > 1:
+      yield {**case, 'ids': [0] * n}
     if case.get('client_kinds'):
       for i, k in enumerate(case['client_kinds']):
         if k != 'jf32':
@@ -460,6 +481,14 @@ class C07(core.Property):
       return int(w)
     if wkind == 'np32':
       return np.float32(w)
+    if wkind == 'np64':
+      return np.float64(w)
+    if wkind in ('npi64', 'npu8', 'npi16'):
+      return {'npi64': np.int64, 'npu8': np.uint8, 'npi16': np.int16}[wkind](w)
+    if wkind == 'nd0':
+      return np.array(w, dtype=np.float64)
+    if wkind == 'nd1':
+      return np.array([w], dtype=np.float32)
     if wkind == 'jnp':
       return self.jnp.asarray(w, dtype=self.jnp.float32)
     return float(w)
@@ -525,7 +554,7 @@ class C07(core.Property):
       return self._eval_clip(case, ctx)
     return self._eval_weight(case, ctx)
 
-  def _call(self, op, trees, ws, form, order):
+  def _call(self, op, trees, ws, form, order, ids=None):
     items = []
     for i in order:
       if op == 'sum':
@@ -533,7 +562,7 @@ class C07(core.Property):
       elif op == 'mean':
         items.append((trees[i], ws[i]))
       else:
-        items.append((b'client%d' % i, trees[i], ws[i]))
+        items.append((b'client%d' % (ids[i] if ids else i), trees[i], ws[i]))
     if form == 'gen':
       it = (x for x in items)
     elif form == 'iter':
@@ -558,7 +587,9 @@ class C07(core.Property):
     trees = self._build(case)
     wsc = pow2(case.get('wscale', 0))
     fw = [F(w) * wsc for w in case['weights']]
-    ws = [self._conv_w(int(w) if case['wkind'] == 'int' else float(w), case['wkind']) for w in fw]
+    ws = [self._conv_w(int(w) if case['wkind'] in INT_WKINDS else float(w), case['wkind']) for w in fw]
+    # the weights are inputs too: value snapshot of every weight object
+    wsnap = [(type(w), np.array(w, copy=True)) for w in ws]
     snap = self._snapshot(trees)
     flat_in = [[v for l in t for v in l] for t in self._scaled(case)]
     m = len(flat_in[0])
@@ -586,7 +617,7 @@ class C07(core.Property):
     outs = []
     for which, order in (('given order', list(range(n))), ('permuted order', case['perm'])):
       try:
-        out = self._call(op, trees, ws, case['form'], order)
+        out = self._call(op, trees, ws, case['form'], order, case.get('ids'))
       except Exception as e:   # the inputs may have been invalidated by the first call
         fail('raised', f'{op} raised {type(e).__name__}: {str(e)[:120]} ({which})')
         break
@@ -620,7 +651,12 @@ class C07(core.Property):
           break
     for k, msg in self._harm(snap, outs):
       fail(k, msg)
+    for i, (w, (ty, val)) in enumerate(zip(ws, wsnap)):
+      now = np.asarray(w)
+      if type(w) is not ty or now.dtype != val.dtype or now.shape != val.shape or not np.array_equal(now, val):
+        fail('weight-modified', f'the caller\'s weight object {i} ({case["wkind"]}) changed: {val.tolist()} -> {now.tolist()}')
     ctx.count('monitor_inputs_unharmed', len(snap[0]))
+    ctx.count('monitor_weights_unharmed', len(ws))
 
     # model
     mop = {'sum': 'c07.sum', 'mean': 'c07.mean', 'agg': 'c07.agg'}[op]
@@ -659,6 +695,7 @@ class C07(core.Property):
       nontrivial = all(any(abs(float(x - y)) > 100 * tolc(S[k], y) for k, (x, y) in enumerate(zip(wr, want)))
                        for wr in wrongs)
     tags = ('mixed-dtype:' + ','.join(sorted(set(case['client_kinds']))) if case.get('client_kinds') else 'same-dtype',
+            ('ids=placeholder' if len(set(case['ids'])) == 1 else 'ids=repeated') if case.get('ids') else 'ids=distinct',
             f'op={op}', f'n={n}', f'form={case["form"]}', f'wkind={case["wkind"]}',
             f'scale=2^{case.get("scale", 0)}', f'wscale=2^{case.get("wscale", 0)}',
             'W=0' if (op != 'sum' and W == 0) else 'W>0', f'leaves={len(case["spec"])}',
